@@ -63,6 +63,7 @@ func checkC12(r *Run) {
 			return ok1 && mv == 0 && sv != nil && sv.Kind() == constant.String && constant.StringVal(sv) == "unknown"
 		})
 	}
+	pvOK := m.resultName(tv, -1, isCallTo(info, "p9.parseVersion"))
 	nex := 0
 	var successRet *ast.ReturnStmt
 	for _, ex := range db.Exits[tv] {
@@ -80,7 +81,7 @@ func checkC12(r *Run) {
 		r.check(okT, "r1", key+" is an Rversion", ex.Ret.Pos(), "static type *rversion", "Tversion is answered with "+fmt.Sprint(t)+": the protocol requires Rversion, never an error")
 		// classification by facts
 		zero := ex.St.holds(recv+".MSize == 0", true)
-		notParsed := ex.St.holds("ok", false)
+		notParsed := pvOK != "" && ex.St.holds(pvOK, false)
 		otherBase := false
 		for _, p := range ex.St.Paths {
 			for k, v := range p {
@@ -93,7 +94,7 @@ func checkC12(r *Run) {
 			r.check(zero || notParsed || otherBase, "r2", key+" (unknown)", ex.Ret.Pos(), "returned under msize == 0 / version not parsed / other dialect", "the 'unknown' reply is returned on a path where msize != 0, the version parsed and the dialect is not known to differ: a valid request is refused")
 		} else {
 			successRet = ex.Ret
-			okS := ex.St.holds(recv+".MSize == 0", false) && ex.St.holds("ok", true)
+			okS := ex.St.holds(recv+".MSize == 0", false) && pvOK != "" && ex.St.holds(pvOK, true)
 			okL := false
 			for _, p := range ex.St.Paths {
 				for k, v := range p {
@@ -168,9 +169,13 @@ func checkC12(r *Run) {
 					stored[r.L.str(s.Call.Args[0])+"="+r.L.str(s.Call.Args[1])] = true
 				}
 			}
-			r.check(stored["&cs.messageSize="+msName], "r3", "cs.messageSize stores the announced msize", tv.Decl.Pos(), "atomic store of "+msName, "cs.messageSize is not set to the announced (clamped) msize "+msName)
+			csN := "cs"
+			if ps := tv.Decl.Type.Params.List; len(ps) == 1 && len(ps[0].Names) == 1 {
+				csN = ps[0].Names[0].Name
+			}
+			r.check(stored["&"+csN+".messageSize="+msName], "r3", "cs.messageSize stores the announced msize", tv.Decl.Pos(), "atomic store of "+msName, "cs.messageSize is not set to the announced (clamped) msize "+msName)
 			if vc != nil && len(vc.Args) == 2 {
-				r.check(stored["&cs.version="+r.L.str(vc.Args[1])], "r3", "cs.version stores the announced version", tv.Decl.Pos(), "atomic store of the clamped version", "cs.version is not set to the announced (clamped) version")
+				r.check(stored["&"+csN+".version="+r.L.str(vc.Args[1])], "r3", "cs.version stores the announced version", tv.Decl.Pos(), "atomic store of the clamped version", "cs.version is not set to the announced (clamped) version")
 			}
 			// pool buffers sized by the announced msize
 			nmk := 0
